@@ -202,6 +202,9 @@ func (fr *Frame) ghostCall(i *ssa.Call, kind string, args []Val, st *State, g Te
 			}
 			ts = append(ts, fr.term(v, st))
 		}
+		if ts[0].Sort != ts[1].Sort {
+			ts = []Term{fr.term(i.Call.Args[0], st), fr.term(i.Call.Args[1], st)}
+		}
 		fr.regs[i] = TV{T: Eq(ts[0], ts[1])}
 	case "Lemma":
 		clo, ok := fr.closureArg(i.Call.Args[0], st)
@@ -400,7 +403,9 @@ func (fr *Frame) repoCall(i *ssa.Call, callee *ssa.Function, args []Val, free []
 	x := fr.x
 	e := x.eng
 	c := e.contractOf[callee]
-	if fr.ghost {
+	isLemma := c != nil && c.Flags["lemma"]
+	if fr.ghost || (e.specFns[callee] && !isLemma) {
+		// specification functions keep their logical meaning also when proof code calls them
 		fr.specCall(i, callee, c, args, free, st, g)
 		return
 	}
